@@ -1,0 +1,95 @@
+//go:build verif
+
+package internal
+
+import "strings"
+
+// Contracts checked by /verif/govc (see /verif/DESIGN.md). This file is compiled only with -tags verif.
+
+// spec_irreg: what the irregular branch makes of the matched word w on its own: the word's first byte kept
+// (so its case survives), followed by the replacement without its first byte.
+func spec_irreg(r *Rule, w string) string {
+	return w[0:1] + r.irregularMap[strings.ToLower(w)][1:]
+}
+
+// spec_wellFormed: representation invariant of an initialised Rule (established by Init, the only writer).
+func spec_wellFormed(r *Rule) bool {
+	return r != nil && r.compiledIrregular != nil && r.compiledUninflected != nil &&
+		spec_forallIn(0, len(r.compiledRules), func(i int) bool { return r.compiledRules[i] != nil && r.compiledRules[i].Regexp != nil })
+}
+
+//@ func Rule.inflected
+//@   props C20
+//@   pure
+//@   functional
+//@   requires spec_wellFormed(r)
+//@   assume len(r.compiledIrregular.FindStringSubmatch(s)) >= 3 ==> len(r.compiledIrregular.FindStringSubmatch(s)[2]) >= 1 && r.compiledIrregular.FindStringSubmatch(s)[1] + r.compiledIrregular.FindStringSubmatch(s)[2] == s
+//@   assume forall w string :: has(r.irregularMap, w) ==> len(r.irregularMap[w]) >= 1
+//@   note the two assume clauses are properties of the regexp `(?i)(.*)\b(w1|...|wn)$` built by Init from non-empty words (regexp engine: assumed; sampled by the thorough tier) and of the replacement table in rules.go (all replacements non-empty)
+//@   ensures len(r.compiledIrregular.FindStringSubmatch(s)) >= 3 && has(r.irregularMap, strings.ToLower(r.compiledIrregular.FindStringSubmatch(s)[2])) ==> result == r.compiledIrregular.FindStringSubmatch(s)[1] + spec_irreg(r, r.compiledIrregular.FindStringSubmatch(s)[2])
+//@   ensures !(len(r.compiledIrregular.FindStringSubmatch(s)) >= 3 && has(r.irregularMap, strings.ToLower(r.compiledIrregular.FindStringSubmatch(s)[2]))) && r.compiledUninflected.MatchString(s) ==> result == s
+//@   loop 1 invariant true
+
+// lemma_prefixPreserved (C20): when the input ends in an irregular word w (so s == pre + w, and w on its own is
+// matched as the word with an empty prefix), everything before the word is preserved and the word is inflected
+// exactly as it is on its own: inflected(pre + w) == pre + inflected(w). Proved from the contract of inflected.
+func lemma_prefixPreserved(r *Rule, s string) {
+	res := r.compiledIrregular.FindStringSubmatch(s)
+	if len(res) >= 3 {
+		w := res[2]
+		alone := r.compiledIrregular.FindStringSubmatch(w)
+		// regexp fact (assumed): the matched word on its own is matched as the word, with nothing before it
+		spec_assume(len(alone) >= 3 && alone[1] == "" && alone[2] == w)
+		if _, ok := r.irregularMap[strings.ToLower(w)]; ok {
+			a := r.inflected(s)
+			b := r.inflected(w)
+			spec_assert(a == res[1]+b)
+		}
+	}
+}
+
+//@ func lemma_prefixPreserved
+//@   props C20
+//@   requires spec_wellFormed(r)
+
+//@ func Rule.Inflected
+//@   props C20
+//@   trusted
+//@   note memoisation through sync.Map.LoadOrStore of sync.OnceValue closures: assumed to return what the stored closure computes, i.e. r.inflected(s); data-race freedom for all schedules is outside this family (not decided)
+
+// ---- govc prelude: ghost helpers of the clause language (identical in every contracts_verif.go) ----
+
+func spec_old[T any](v T) T                             { return v }
+func spec_entry[T any](v T) T                           { return v }
+func spec_has[K comparable, V any](m map[K]V, k K) bool { _, ok := m[k]; return ok }
+func spec_implies(a, b bool) bool                       { return !a || b }
+func spec_iff(a, b bool) bool                           { return a == b }
+func spec_eq[T any](a, b T) bool                        { panic("ghost: structural equality") }
+func spec_all[T any](p func(T) bool) bool               { panic("ghost: unbounded quantifier") }
+func spec_any[T any](p func(T) bool) bool               { panic("ghost: unbounded quantifier") }
+func spec_fresh(p any) bool                             { panic("ghost: allocation predicate") }
+func spec_assert(c bool) {
+	if !c {
+		panic("ghost assertion failed")
+	}
+}
+func spec_assume(c bool) {}
+
+// bounded (executable) quantifiers for spec functions: lo <= i < hi
+func spec_existsIn(lo, hi int, p func(int) bool) bool {
+	for i := lo; i < hi; i++ {
+		if p(i) {
+			return true
+		}
+	}
+	return false
+}
+
+func spec_forallIn(lo, hi int, p func(int) bool) bool {
+	for i := lo; i < hi; i++ {
+		if !p(i) {
+			return false
+		}
+	}
+	return true
+}
